@@ -314,6 +314,8 @@ def mat_intersect(D1, D2, keep=0):
     needles = _bytes_view(needles, out_dtype).ravel()
 
     i = haystack.argsort()
+    if i.size == 0:
+        return np.array([], dtype=int), np.array([], dtype=int)
     pvi = np.searchsorted(haystack, needles, sorter=i)
 
     # since searchsorted can return length as index:
